@@ -1,6 +1,6 @@
 (* C13/Properties.v — property theorems only (partial: the logic cores of determinism). *)
 From Coq Require Import Lia Sorting.Permutation String.
-From RM Require Import C13.Model C13.Proofs C13.Linux C13.ProofsLinux C13.Sites.
+From RM Require Import C13.Model C13.Proofs C13.Linux C13.ProofsLinux C13.ProofsLimits C13.Sites.
 From RM Require C12.Model C12.Proofs C13.Sched C13.ProofsSched.
 Open Scope string_scope.
 Open Scope list_scope.
@@ -129,6 +129,16 @@ Proof.
   split; [exact A|]. split; [exact B|]. rewrite C, D. discriminate.
 Qed.
 Print Assumptions c13_stats_refuted.
+
+(* ---- the proc_limits pipeline from the stream bytes (round 4): C03's parser, collect() into the HashMap (names stay
+   distinct: a repeated name replaces the earlier entry), ANY iteration order of that map, the sort — the rendered array
+   is the same.  No NoDup hypothesis is left: it is proved of the map the code builds (to_map_names_distinct) *)
+Theorem c13_limits_pipeline_order_independent :
+  forall (p1 p2 : list entry -> list entry) (data : bytes),
+  (forall m, Permutation (p1 m) m) -> (forall m, Permutation (p2 m) m) ->
+  limits_json p1 data = limits_json p2 data.
+Proof. exact limits_json_order_independent. Qed.
+Print Assumptions c13_limits_pipeline_order_independent.
 
 (* ---- Linux key/value streams (round 4) *)
 (* LinuxStandardBase::from is a fold over the lines in file order: every field of the result is the value of the
